@@ -103,10 +103,13 @@ Fixpoint mutex_scan (l : log) (inside : list nat) : bool :=
   end.
 Definition mutex_ok (l : log) : bool := mutex_scan l [].
 
-(* R2: a try-lock returns without waiting (wall-clock bound, generous);
+(* R2: a try-lock returns without waiting: well under the 500 ms retry period of the
+   redis Lock loop, whatever the outcome (a try-lock that waited for a retry and
+   then failed or succeeded is a violation); the harness validates the timing of
+   every emitted run with an independent stall probe;
    R3: a failing Lock fails with the time-out error no earlier than its wait
        time-out; a failing TryLock fails with the busy error *)
-Definition try_bound_ms : Z := 1500.
+Definition try_bound_ms : Z := 300.
 
 Definition call_ret_ok (tmo : list Z) (l : log) (i : nat) : bool :=
   match find_pos (is_call i) l, op_of i l with
